@@ -23,7 +23,7 @@ TRUSTED = [
 ]
 
 HEADER = ("From Coq Require Import NArith ZArith List Bool String.\nImport ListNotations.\n"
-          "From GT Require Import Base.Verdict.\nFrom GT Require Import GSortModel GSortJudge Base.SortU.\n")
+          "From GT Require Import Base.Verdict.\nFrom GT Require Import GSortModel GSortTagModel GSortJudge Base.SortU.\n")
 
 
 # ------------------------------------------------------------------ python-side helpers
@@ -217,6 +217,23 @@ def run(ctx):
         ctx.report({"unchecked": "in-kernel evaluation of the correspondence", "detail": err},
                    {"kind": "coq_eval"}, failing_input=False)
         return
+    # a difference from the model alone (code 2) is not yet a failing input: before it is reported
+    # as `no-failing-input-found`, a widened farm (other seed, three times the definitions)
+    # searches for an observation that contradicts the specification itself
+    indom_bad = [(i, c) for i, c in bad if not jsons[i]["kind"].startswith("out-of-domain")]
+    if indom_bad and not any(c == 1 for _, c in indom_bad):
+        ctx.log("only model-level differences so far: widened search for a failing input")
+        wargs = ["-seed", ctx.seed + 7919, "-mode", "random", "-n", 72 if quick else 300,
+                 "-limit", 5600000 if quick else 30000000, "-runs", 6]
+        wt, wj, werr = farm.run("wide", wargs, timeout=3000)
+        if not werr:
+            wbad, _, werr = farm.judge(wt, "wide")
+            if not werr:
+                for j in wj:
+                    j["kind"] = "widened/" + j["kind"]
+                bad += [(len(jsons) + i, c) for i, c in wbad]
+                jsons += wj
+                ctx.cov["widened_search"] = {"sorters": len(wj), "failing_inputs_found": sum(1 for _, c in wbad if c == 1)}
     informational, groups = [], {}
     for i, code in bad:
         j = jsons[i]
@@ -226,7 +243,15 @@ def run(ctx):
         sh = shape(j)
         groups.setdefault((code, sh["last_key_bool"], j["gen_ok"]), []).append(j)
     # one replay per group of like failures: the member with the fewest keys, minimised by
-    # re-running reduced definitions (the sorter alone over suffixes of its key chain)
+    # re-running reduced definitions (the sorter alone over suffixes of its key chain).
+    # Failing inputs (code 1) are reported first and take the replay slots; when there is one,
+    # the model-only differences (code 2) are attached to the evidence instead of being reported
+    # as `no-failing-input-found`.
+    have_failing = any(code == 1 for (code, _, _) in groups)
+    if have_failing:
+        ctx.cov["model_only_differences_beside_failing_inputs"] = sum(
+            len(m) for (code, _, _), m in groups.items() if code == 2)
+        groups = {k: m for k, m in groups.items() if k[0] == 1}
     for (code, _, _), members in sorted(groups.items(), key=lambda kv: kv[0][0]):
         members.sort(key=lambda j: (len(chain(j["def"], j["sorter"])), len(j["def"]["fields"])))
         j = members[0]
